@@ -452,3 +452,31 @@ def shrink_doc_case(case, violation):
             c = copy.deepcopy(case)
             del c["histories"][0]["groups"][k]
             yield c
+    # document-level reductions (each candidate is re-translated and re-compiled): drop handlers, then bindings the
+    # violation does not name, then constants
+    if len(case["histories"]) <= 1:
+        doc = case["doc"]
+        keep = violation.get("binding")
+        owners = [("root", doc["root"])] + [(i, o) for i, o in enumerate(doc["objects"])]
+        for oi, o in owners:
+            for hi in range(len(o["handlers"]) - 1, -1, -1):
+                yield _doc_variant(case, oi, "handlers", hi)
+        for oi, o in reversed(owners):
+            for bi in range(len(o["bindings"]) - 1, -1, -1):
+                b = o["bindings"][bi]
+                if keep and b["target"] == keep[1] and (b.get("sub") == keep[2]):
+                    continue
+                yield _doc_variant(case, oi, "bindings", bi)
+        for oi, o in owners:
+            for ci in range(len(o["consts"]) - 1, -1, -1):
+                yield _doc_variant(case, oi, "consts", ci)
+
+
+def _doc_variant(case, owner_index, field, k):
+    c = copy.deepcopy(case)
+    doc = c["doc"]
+    o = doc["root"] if owner_index == "root" else doc["objects"][owner_index]
+    del o[field][k]
+    doc["qml"] = gen.render_doc(doc)
+    return c
+
